@@ -46,26 +46,13 @@ Definition gt (t idx ipd : Z) : Z :=
   else enc ipd (t - (year_start tz_utc (year_of tz_utc t) + index_to_second_of_year idx ipd * NS)).
 Definition tft : Z -> Z -> Z -> Z * Z := dec.
 
-(** Full statement (the property as given: ALL histories over fixed and variable buckets of all
-    timeframes, any grouping into transactions, including mixed ones).  A history is admitted when every
-    write set is individually well formed against the master's evolving store. *)
-Definition ws_wfb (st : store) (w : ws) : bool := fixed_okb st w || var_wfb st w.
-Fixpoint tg_wfb (st : store) (tg : list ws) : bool :=
-  match tg with [] => true | w :: r => ws_wfb st w && tg_wfb (master_ws st w) r end.
-Fixpoint hist_wfb (st : store) (tgs : list (list ws)) : bool :=
-  match tgs with [] => true | tg :: r => tg_wfb st tg && hist_wfb (master_tg st tg) r end.
-
-Definition C25_full : Prop := forall tgs,
-  hist_wfb [] tgs = true ->
-  exists sr, replica_run gt tft [] tgs = ROk sr /\ convergedb tft (master_run [] tgs) sr = true.
-
-(** Not proved (stated, see notes/C25.md): when no tick is exposed to the decoder's second rounding (C10's F1, on
-    the master's ticks or on the re-encoded ones) the re-encoded timestamps stay within the bucket's resolution of
-    the master's.  This is a statement about the float codec (decode after encode after decode), C10's open bound
-    [C10_bound_guarded]. *)
+(** Not proved (stated, see notes/C25.md): the re-encoded timestamps stay within the bucket's resolution of the
+    master's, i.e. the replica CONVERGES on every well-formed history, VARIABLE buckets included.  Given C25_guarded
+    this is a statement about the float codec alone (decode after encode after decode is within two ticks of
+    decode), C10's general bound; it is checked on the model and on the real code for every generated case.
+    Since the decoder fix 551fdb4 (C10 F1) no generated or corpus case contradicts it. *)
 Definition C25_variable_close : Prop := forall tgs,
   run_okb gt tft [] tgs = true ->
-  existsb (existsb (f1_exposed gt tft)) tgs = false ->
   exists sr, replica_run gt tft [] tgs = ROk sr /\ convergedb tft (master_run [] tgs) sr = true.
 
 Definition b (s : string) : list byte := bytes_of_string s.
@@ -80,21 +67,11 @@ Definition w_a : ws :=
   mkws RT_VARIABLE (b "AAA/1Min/TICK") minute 2020 91441
        ([x01; x00; x00; x00] ++ le_bytes 4 (enc 1440 37500000000)) 8 sh_A.
 
-(** [Finding decoded-second-rounded-up: C10's F1 seen through replication]  A tick written to a 1Sec bucket at
-    x.999999999 s: GetTimeFromTicks returns it one second late (seconds rounded up, nanoseconds kept).  The
-    master's query shows that late time; the replica re-encodes the late time, which lands in the NEXT
-    interval and decodes late once more: master and replica differ by a second.  The defect is in the tick
-    decoder (executor/rewritebuffer.go:79-86), not in the replication code. *)
+(** [The decoder's second rounding (C10 F1), which made a tick written at x.999999999 s differ by a second between
+    master and replica, is FIXED in /repo 551fdb4; the former witness is part of the non-vacuity example below.] *)
 Definition w_r : ws :=
   mkws RT_VARIABLE (b "RRR/1Sec/TICK") second 2020 5486438
        ([x01; x00; x00; x00] ++ le_bytes 4 (enc 86400 999999999)) 8 sh_A.
-
-Theorem C25_refuted_rounding : ~ C25_full.
-Proof.
-  intros H. destruct (H [[w_r]] ltac:(vm_compute; reflexivity)) as (sr & Hr & Hc).
-  vm_compute in Hr. injection Hr as <-. vm_compute in Hc. discriminate Hc.
-Qed.
-Print Assumptions C25_refuted_rounding.
 
 (** [F21b mixed-record-types-in-tg is FIXED in /repo: Replay uses each write set's own record type; the
     former witness, a FIXED set followed by a VARIABLE one, is part of the non-vacuity example below.] *)
@@ -104,11 +81,11 @@ Definition w_v2 : ws := mkws RT_VARIABLE (b "VVV/1Sec/TICK") second 2020 5486439
 
 (** Non-vacuity: a history with a FIXED transaction group of two write sets, a VARIABLE 1Sec set, a MIXED
     group (FIXED overwrite of a slot followed by a VARIABLE set: the former F21b witness) and a 1Min tick with
-    37.5 s inside the interval (the former F21a witness) meets the guard of C25_guarded with the concrete
-    codec, and the replica converges on it. *)
+    37.5 s inside the interval (the former F21a witness) and a 1Sec tick at x.999999999 s (the former rounding
+    witness) meets the guard of C25_guarded with the concrete codec, and the replica converges on it. *)
 Definition w_f2 : ws := mkws RT_FIXED (b "FFF/1Min/OHLC") minute 2020 91443 [x05; x00; x00; x00] 0 sh_A.
 Definition w_f3 : ws := mkws RT_FIXED (b "FFF/1Min/OHLC") minute 2020 91442 [x07; x00; x00; x00] 0 sh_A.
-Definition ex_hist : list (list ws) := [[w_f; w_f2]; [w_v1]; [w_f3; w_v2]; [w_a]].
+Definition ex_hist : list (list ws) := [[w_f; w_f2]; [w_v1]; [w_f3; w_v2]; [w_a]; [w_r]].
 
 Example C25_nonvacuous :
   run_okb gt tft [] ex_hist = true /\
